@@ -477,6 +477,43 @@ def check_system_unknown_key(res):
                 res.violation("C12|ReactionSystem.from_string|unknown-key-accepted|%s" % kname, "ReactionSystem.from_string(%r, %r, %s): %s" % (text, subs, kname, got), dict(kind="system-unknown-key", subs=subs, kname=kname), got, "an exception")
 
 
+MARKED_KEYS = ["O2*", "CH3*", "N2*", "Pt4*", "H2O*", "OH*", "O2'", "H2O2*", "C60*"]
+
+
+def check_marked_keys(res, cls_name):
+    """species keys that end in an excitation mark after a digit or a letter (O2*, CH3*, H2O*): read as written in every position and
+    with every coefficient spelling, and printed text reads back as the same reaction"""
+    import chempy
+
+    cls = getattr(chempy, cls_name)
+    arrow = "->" if cls_name == "Reaction" else "="
+    for key in MARKED_KEYS:
+        for (ctxt, cval), pos in itertools.product(COEFS[:4], ("reac-first", "reac-second", "prod")):
+            res.states += 1
+            res.transitions += 1
+            res.evaluations += 1
+            res.nontrivial += 1
+            term = ctxt + key
+            if pos == "reac-first":
+                text, want = "%s + B %s C" % (term, arrow), ({key: cval, "B": 1}, {"C": 1})
+            elif pos == "reac-second":
+                text, want = "B + %s %s C" % (term, arrow), ({"B": 1, key: cval}, {"C": 1})
+            else:
+                text, want = "B %s C + %s" % (arrow, term), ({"B": 1}, {"C": 1, key: cval})
+            try:
+                r = cls.from_string(text)
+                got = (dict(r.reac), dict(r.prod))
+                back = cls.from_string(r.string())
+                again = (dict(back.reac), dict(back.prod))
+            except Exception as e:
+                got = again = "EXC %s" % type(e).__name__
+            ok = got == want and again == want
+            res.outcomes["marked-keys-%s" % ("ok" if ok else "WRONG")] += 1
+            if not ok:
+                res.violation("C12|%s.from_string|marked-key|%s" % (cls_name, "misread" if got != want else "print-parse"), "%s.from_string(%r) read %r (printed and read again: %r), written %r" % (cls_name, text, got, again, want),
+                              dict(kind="marked-key", cls=cls_name, key=key), [got, again], want)
+
+
 def check_copy_overrides(res, cls_name):
     """copy(param=...) / copy(name=...) replace exactly what is named, also by a falsy value (0, 0.0, '', None)"""
     import chempy
@@ -588,6 +625,7 @@ def run_chunk(chunk, tier):
         check_dont_check_history(res, chunk[1])
         check_context_history(res, chunk[1])
         check_copy_overrides(res, chunk[1])
+        check_marked_keys(res, chunk[1])
         if chunk[1] == "Reaction":
             check_system_unknown_key(res)
         for li in range(len(WS_LINES)):
@@ -625,7 +663,11 @@ def run_chunk(chunk, tier):
 
 def replay(case):
     res = Result()
-    if case.get("kind") == "system-unknown-key":
+    if case.get("kind") == "marked-key":
+        sub = Result()
+        check_marked_keys(sub, case["cls"])
+        res.violations = [v for v in sub.violations if v["case"] == case]
+    elif case.get("kind") == "system-unknown-key":
         sub = Result()
         check_system_unknown_key(sub)
         res.violations = [v for v in sub.violations if v["case"] == case]
